@@ -285,4 +285,12 @@ def verbs : Handler
       pure { model, spec }
   | _, _ => none
 
+/-- `perrec`: a law on the implementation only - a verb that keeps no state across records gives, on a
+stream, the concatenation of what it gives on each record alone. -/
+def perrec : Handler
+  | [_, _], impl =>
+    some { model := impl, unmodelled := true,
+           spec := if impl == "same" || impl == "err" then none else some ("-", "same output as record by record (no state carried from one record to the next)") }
+  | _, _ => none
+
 end Driver.Verbs
